@@ -6,6 +6,7 @@ from . import sessgen as G
 
 RULE = ("c10: 1-8 create_proxy_stream calls racing on one client session (real Client, session pool, connector hook, "
         "tokio virtual time); the scripted peer answers SYNACK ok / SYNACK with a reason before (1 ms .. 29 999 ms), "
+        "(reasons: ordinary texts, whitespace-only, NUL, one byte, 65535 bytes, non-UTF-8 -- every non-empty payload is a refusal) "
         "or after (30 001 ms ..) the 30 s wait, twice, for ids that were never opened, after a FIN for the id, or "
         "dies (EOF, read error, Alert, local close) at any time; noise frames (PSH, SYN, HeartRequest) in between; "
         "each future must complete exactly once (no 'hang' after 65 s) with the class and at the instant predicted "
@@ -30,6 +31,7 @@ def corpus_cases():
 def predict(n, evs):
     """reference rule written from the property text"""
     evs = sorted(evs, key=lambda e: e[0])
+    raw = {e[2] for e in evs if e[1] == "ack" and len(e) > 4 and e[4]}
     out = []
     for sid in range(1, n + 1):
         reg, alive, res = True, True, None
@@ -41,7 +43,8 @@ def predict(n, evs):
                 break
             if k == "ack":
                 if alive and reg and e[2] == sid:
-                    res = ("ok@%d" % t) if e[3] == b"" else ("srv.%08x@%d" % (G.fnv(e[3]), t))
+                    # an empty payload is success; EVERY non-empty payload is the server's refusal
+                    res = ("ok@%d" % t) if e[3] == b"" else (("srv.raw@%d" % t) if sid in raw else ("srv.%08x@%d" % (G.fnv(e[3]), t)))
                     break
             elif k == "fin":
                 if alive and e[2] == sid:
@@ -62,7 +65,7 @@ def parse_events(args):
         p = a.split(":")
         t, k = int(p[0]), p[1]
         if k == "ack":
-            evs.append((t, k, int(p[2]), unhx(p[3])))
+            evs.append((t, k, int(p[2]), unhx(p[3]), len(p) > 4 and p[4] == "r"))
         elif k in ("fin", "psh", "syn"):
             evs.append((t, k, int(p[2])))
         else:
@@ -87,10 +90,20 @@ def build(r, cid, tier):
         c = r.random()
         if c < 0.55:
             t = tm()
-            evs.append("%d:ack:%d:%s" % (t, sid, "-" if r.random() < 0.6 else hx(r.choice([b"no", b"Failed to connect to 1.2.3.4:80: refused", b"x" * 300]))))
+            c2 = r.random()
+            if c2 < 0.45:
+                pl = "-"
+            elif c2 < 0.65:
+                pl = hx(r.choice([b"no", b"Failed to connect to 1.2.3.4:80: refused", b"x" * 300, b"Connection timeout (15s) to example.com:80\n"]))
+            elif c2 < 0.9:
+                # every non-empty payload is a refusal: whitespace only, NUL, one byte, very long
+                pl = hx(r.choice([b"\r\n", b"\n", b" ", b"\t", b"  \t\r\n ", b"\x00", b"\x0b", b"0", b"-", b" no ", b"y" * 65535, b" " * 65535]))
+            else:
+                pl = hx(r.choice([b"\xff", b"\xc3", b"\x80\x80", b"ok\xfe", b"\xe2\x82"])) + ":r"     # not UTF-8: class only
+            evs.append("%d:ack:%d:%s" % (t, sid, pl))
             close_timing = close_timing or abs(t - 30000) <= 2
-            if r.random() < 0.3:
-                evs.append("%d:ack:%d:%s" % (tm(), sid, r.choice(["-", hx(b"late")])))      # answered twice
+            if r.random() < 0.3 and not pl.endswith(":r"):
+                evs.append("%d:ack:%d:%s" % (tm(), sid, r.choice(["-", hx(b"late"), hx(b"\n")])))      # answered twice
         elif c < 0.7:
             evs.append("%d:ack:%d:-" % (tm(30001, 60000), sid))                                # after the timeout
         elif c < 0.8:
